@@ -554,4 +554,254 @@ theorem dropResources_off {w : World} (h : PInv w) (z : Pid) (pl : Nat) : z + 1 
   rw [dropResources_held, if_pos rfl] at this
   cases this
 
+/-! ### every command -/
+
+theorem pinv_cancelAwaiteds {w : World} (h : PInv w) (z : Pid) : PInv (cancelAwaiteds w z) :=
+  h.of_same (fun pl => ph_congr (by simp) pl) (fun q pl hm => by simpa using hm)
+
+theorem pinv_wakeWaiters {w : World} (h : PInv w) (z : Pid) (sig : Int) : PInv (wakeWaiters w z sig) :=
+  h.of_same (fun pl => ph_congr (by simp) pl) (fun q pl hm => by simpa using hm)
+
+@[simp] theorem modProc_held_keep (w : World) (z : Pid) (f : Proc → Proc) (q : Pid)
+    (hf : ∀ x, (f x).held = x.held) : ((w.modProc z f).proc q).held = (w.proc q).held :=
+  modProc_field Proc.held w z f hf q
+
+theorem pinv_finishProc {w : World} (h : PInv w) (z : Pid) (val : Int) (stopped : Bool) :
+    PInv (finishProc w z val stopped) := by
+  have hmid : PInv (finishMid w z stopped) := by
+    unfold finishMid; split
+    · exact pinv_dropResources (pinv_cancelAwaiteds h z) z
+    · exact pinv_cancelAwaiteds (pinv_dropResources h z) z
+  rw [finishProc_eq]
+  refine (pinv_wakeWaiters hmid z _).of_same (fun pl => rfl) ?_
+  intro q pl hm
+  simpa using hm
+
+/-- after the end of `z` it is on no pool's holder list -/
+theorem finishProc_off {w : World} (h : PInv w) (z : Pid) (val : Int) (stopped : Bool) (pl : Nat) :
+    z + 1 ∉ (finishProc w z val stopped).hk pl := by
+  intro hm
+  have hl := (pinv_finishProc h z val stopped).listed pl z hm
+  have hz : z < (finishProc w z val stopped).procs.size := lt_np_of_held _ _ _ hl
+  rw [(finishProc_record w z (by simpa using hz) val stopped).1] at hl
+  cases hl
+
+theorem ph_setRecording (w : World) (kind idx : Nat) (on : Bool) (pl : Nat) :
+    (setRecording w kind idx on).ph pl = w.ph pl := by
+  rcases kind with _|_|_|_|n <;> simp only [setRecording] <;> split
+  all_goals try (refine ph_congr ?_ pl; simp; done)
+  all_goals try rw [recordPool_ph]
+  · refine ph_modify_keep w idx _ ?_ pl
+    intro x; rfl
+  · refine Eq.trans (ph_modify_keep (recordPool w idx) idx _ ?_ pl) (recordPool_ph _ _ _)
+    intro x; rfl
+
+theorem pinv_setRecording {w : World} (h : PInv w) (kind idx : Nat) (on : Bool) : PInv (setRecording w kind idx on) :=
+  h.of_same (ph_setRecording w kind idx on) (fun q pl hm => by simpa using hm)
+
+/-- one step of the second loop of `priority_set`: re-sorting the holder record of pool `pl` -/
+theorem pinv_reprio_step {w : World} (h : PInv w) (q : Pid) (v : Int) (a : HoldRef) :
+    PInv (match a with
+      | .pool pl =>
+        match w.pools[pl]? with
+        | some x =>
+          match HashHeap.reprioritize holder_queue_check x.holders (q + 1) 0 v with
+          | .ok h' => { w with pools := w.pools.set! pl { x with holders := h' } }
+          | .error f => w.fail s!"priority_set holder: {f}"
+        | none => w
+      | .res _ => w) := by
+  split
+  · rename_i pl
+    split
+    · rename_i x hx
+      split
+      · rename_i h' hr
+        have hwf := h.wf pl x.holders (ph_eq w pl x hx)
+        obtain ⟨hwf', hkeys'⟩ := hh_reprio_ok hwf hr
+        refine h.set_holders pl h' (fun pl' => ph_set w pl _ pl' (lt_size_of_getElem? hx)) hwf'
+          (fun _ _ _ hm => hm) ?_ rfl
+        intro q' hq'
+        exact h.listed pl q' (by rw [hk_eq w pl x hx]; exact (hkeys' _).1 hq')
+      · exact pinv_fail h _
+    · exact h
+  · exact h
+
+theorem pinv_prioSet {w : World} (h : PInv w) (p q : Pid) (v : Int) : PInv (execCmd w p (.prioSet q v)).1 := by
+  simp only [execCmd]
+  split
+  · exact h
+  · dsimp only
+    have h0 : PInv (w.modProc q fun y => { y with prio := v }) :=
+      h.of_same (fun pl => rfl) (fun q' pl hm => by simpa using hm)
+    apply foldl_inv PInv _ (fun w' a hw' => pinv_reprio_step hw' q v a)
+    apply foldl_inv PInv
+    · intro w' a hw'
+      have hp : ∀ (x : World), x.pools = w'.pools → x.procs = w'.procs → PInv x := fun x h1 h2 => pinv_frame hw' h1 h2
+      apply hp <;> frame_close
+    · exact h0
+
+
+/-! ### the remaining primitives, in peeling form -/
+
+theorem pinv_mk {w : World} (h : PInv w) (ev : EvQ) (evW : List (Nat × List Pid)) (guards : Array Guard)
+    (res : Array Res) (bufs : Array Buf) (oqs : Array OQ) (pqs : Array PQ) (conds : Array Nat)
+    (flags : Array Int) (gvars : Array Nat) (log : Array String) (fault : Option String) (d : Nat) :
+    PInv ⟨ev, evW, w.procs, guards, res, w.pools, bufs, oqs, pqs, conds, flags, gvars, log, fault, d⟩ :=
+  pinv_frame h rfl rfl
+
+theorem pinv_emit {w : World} (h : PInv w) (m : String) : PInv (World.emit w m) :=
+  h.of_same (fun pl => ph_congr (by simp) pl) (fun q pl hm => by simpa using hm)
+theorem pinv_setGuardQ {w : World} (h : PInv w) (g : Nat) (q' : HH) : PInv (setGuardQ w g q') :=
+  h.of_same (fun pl => ph_congr (by simp) pl) (fun q pl hm => by simpa using hm)
+theorem pinv_wakeEventWaiters {w : World} (h : PInv w) (ps : List Pid) (sig : Int) : PInv (wakeEventWaiters w ps sig) :=
+  h.of_same (fun pl => ph_congr (by simp) pl) (fun q pl hm => by simpa using hm)
+theorem pinv_evCancel {w : World} (h : PInv w) (x : Nat) : PInv ((evCancel w x).1) :=
+  h.of_same (fun pl => ph_congr (by simp) pl) (fun q pl hm => by simpa using hm)
+theorem pinv_cancelAllFor {w : World} (h : PInv w) (z : Pid) : PInv (cancelAllFor w z) :=
+  h.of_same (fun pl => ph_congr (by simp) pl) (fun q pl hm => by simpa using hm)
+theorem pinv_cancelKindFor {w : World} (h : PInv w) (z : Pid) (act : Nat) (sig : Option Int) : PInv ((cancelKindFor w z act sig).1) :=
+  h.of_same (fun pl => ph_congr (by simp) pl) (fun q pl hm => by simpa using hm)
+theorem pinv_recordRes {w : World} (h : PInv w) (r : Nat) : PInv (recordRes w r) :=
+  h.of_same (fun pl => ph_congr (by simp) pl) (fun q pl hm => by simpa using hm)
+theorem pinv_recordBuf {w : World} (h : PInv w) (r : Nat) : PInv (recordBuf w r) :=
+  h.of_same (fun pl => ph_congr (by simp) pl) (fun q pl hm => by simpa using hm)
+theorem pinv_recordOQ {w : World} (h : PInv w) (r : Nat) : PInv (recordOQ w r) :=
+  h.of_same (fun pl => ph_congr (by simp) pl) (fun q pl hm => by simpa using hm)
+theorem pinv_recordPQ {w : World} (h : PInv w) (r : Nat) : PInv (recordPQ w r) :=
+  h.of_same (fun pl => ph_congr (by simp) pl) (fun q pl hm => by simpa using hm)
+theorem pinv_guardRemove {w : World} (h : PInv w) (g : Nat) (z : Pid) : PInv ((guardRemove w g z).1) :=
+  h.of_same (fun pl => ph_congr (by simp) pl) (fun q pl hm => by simpa using hm)
+theorem pinv_guardSignal {w : World} (h : PInv w) (fuel g : Nat) : PInv (guardSignal fuel w g) :=
+  h.of_same (fun pl => ph_congr (by simp) pl) (fun q pl hm => by simpa using hm)
+theorem pinv_guardWithdraw {w : World} (h : PInv w) (g : Nat) (z : Pid) : PInv (guardWithdraw w g z) :=
+  h.of_same (fun pl => ph_congr (by simp) pl) (fun q pl hm => by simpa using hm)
+theorem pinv_condSignal {w : World} (h : PInv w) (g : Nat) : PInv ((condSignal w g).1) :=
+  h.of_same (fun pl => ph_congr (by simp) pl) (fun q pl hm => by simpa using hm)
+theorem pinv_addAwait {w : World} (h : PInv w) (z : Pid) (a : Await) : PInv (addAwait w z a) :=
+  h.of_same (fun pl => ph_congr (by simp) pl) (fun q pl hm => by simpa using hm)
+theorem pinv_removeAwait {w : World} (h : PInv w) (z : Pid) (a : Await) : PInv ((removeAwait w z a).1) :=
+  h.of_same (fun pl => ph_congr (by simp) pl) (fun q pl hm => by simpa using hm)
+theorem pinv_removeAwaitKind {w : World} (h : PInv w) (z : Pid) (k : Await → Bool) : PInv ((removeAwaitKind w z k).1) :=
+  h.of_same (fun pl => ph_congr (by simp) pl) (fun q pl hm => by simpa using hm)
+theorem pinv_setVar {w : World} (h : PInv w) (z : Pid) (v x : Nat) : PInv (setVar w z v x) :=
+  h.of_same (fun pl => ph_congr (by simp) pl) (fun q pl hm => by simpa using hm)
+theorem pinv_timerAdd {w : World} (h : PInv w) (z : Pid) (d sig : Int) : PInv ((timerAdd w z d sig).1) :=
+  h.of_same (fun pl => ph_congr (by simp) pl) (fun q pl hm => by simpa using hm)
+theorem pinv_timerCancel {w : World} (h : PInv w) (z : Pid) (x : Nat) : PInv ((timerCancel w z x).1) :=
+  h.of_same (fun pl => ph_congr (by simp) pl) (fun q pl hm => by simpa using hm)
+theorem pinv_timersClear {w : World} (h : PInv w) (z : Pid) : PInv (timersClear w z) :=
+  h.of_same (fun pl => ph_congr (by simp) pl) (fun q pl hm => by simpa using hm)
+theorem pinv_guardWaitLeave {w : World} (h : PInv w) (g : Nat) (z : Pid) (sig : Int) : PInv (guardWaitLeave w g z sig) :=
+  h.of_same (fun pl => ph_congr (by simp) pl) (fun q pl hm => by simpa using hm)
+theorem pinv_bufGetLoop {w : World} (h : PInv w) (z : Pid) (b rem got : Nat) : PInv ((bufGetLoop w z b rem got).1) :=
+  h.of_same (fun pl => ph_congr (by simp) pl) (fun q pl hm => by simpa using hm)
+theorem pinv_bufPutLoop {w : World} (h : PInv w) (z : Pid) (b rem left : Nat) : PInv ((bufPutLoop w z b rem left).1) :=
+  h.of_same (fun pl => ph_congr (by simp) pl) (fun q pl hm => by simpa using hm)
+theorem pinv_oqGetLoop {w : World} (h : PInv w) (z : Pid) (k : Nat) : PInv ((oqGetLoop w z k).1) :=
+  h.of_same (fun pl => ph_congr (by simp) pl) (fun q pl hm => by simpa using hm)
+theorem pinv_oqPutLoop {w : World} (h : PInv w) (z : Pid) (k obj : Nat) : PInv ((oqPutLoop w z k obj).1) :=
+  h.of_same (fun pl => ph_congr (by simp) pl) (fun q pl hm => by simpa using hm)
+theorem pinv_pqGetLoop {w : World} (h : PInv w) (z : Pid) (k : Nat) : PInv ((pqGetLoop w z k).1) :=
+  h.of_same (fun pl => ph_congr (by simp) pl) (fun q pl hm => by simpa using hm)
+
+theorem pinv_removeHeld_res {w : World} (h : PInv w) (z : Pid) (r : Nat) : PInv (removeHeld w z (.res r)).1 :=
+  h.of_same (fun pl => by simp) (fun q pl hm => removeHeld_mem _ _ _ _ q hm (Or.inr (by intro e; cases e)))
+
+theorem held_mem_cons_modProc (W : World) (p q : Pid) (a b : HoldRef) (hm : b ∈ (W.proc q).held) :
+    b ∈ ((W.modProc p fun y => { y with held := a :: y.held }).proc q).held := by
+  rw [proc_modProc]
+  split
+  · rename_i e; rw [e.1] at hm; exact List.mem_cons_of_mem _ hm
+  · exact hm
+
+theorem grab_held_mem (w : World) (r : Nat) (p : Pid) (q : Pid) (b : HoldRef) (hm : b ∈ (w.proc q).held) :
+    b ∈ ((grab w r p).proc q).held := by
+  unfold grab
+  cases hx : w.res[r]? with
+  | none => exact hm
+  | some x =>
+    dsimp only
+    apply held_mem_cons_modProc
+    split <;> simpa using hm
+
+theorem pinv_grab {w : World} (h : PInv w) (r : Nat) (p : Pid) : PInv (grab w r p) :=
+  h.of_same (fun pl => ph_congr (by simp) pl) (fun q pl hm => grab_held_mem w r p q _ hm)
+
+theorem pinv_acquireStep {w : World} (h : PInv w) (p : Pid) (r : Nat) : PInv (acquireStep w p r).1 := by
+  unfold acquireStep
+  split
+  · exact pinv_fail h _
+  · split
+    · exact pinv_recordRes (pinv_grab h _ _) _
+    · exact pinv_block (pinv_guardWaitEnter h _ _ _) _ _
+
+theorem pinv_pqPutLoop {w : World} (h : PInv w) (z : Pid) (k obj : Nat) (pri : Int) (v : Nat) :
+    PInv (pqPutLoop w z k obj pri v).1 :=
+  h.of_same (fun pl => ph_congr (by simp) pl) (fun q pl hm => by simpa using hm)
+
+/-- peel a composition of library steps down to `h : PInv w`; `hp : p < w.procs.size` for the caller -/
+syntax "pinv_peel " ident ident num : tactic
+open Lean in
+macro_rules
+  | `(tactic| pinv_peel $h $hp $n) => do
+    if n.getNat = 0 then `(tactic| fail "pinv_peel: out of fuel")
+    else
+      let m := Syntax.mkNumLit (toString (n.getNat - 1))
+      `(tactic| first
+          | with_reducible exact $h
+          | (simpa using $hp)
+          | (with_reducible first
+              | apply pinv_emit
+              | apply pinv_setGuardQ
+              | apply pinv_wakeEventWaiters
+              | apply pinv_evCancel
+              | apply pinv_cancelAllFor
+              | apply pinv_cancelKindFor
+              | apply pinv_recordRes
+              | apply pinv_recordBuf
+              | apply pinv_recordOQ
+              | apply pinv_recordPQ
+              | apply pinv_guardRemove
+              | apply pinv_guardSignal
+              | apply pinv_guardWithdraw
+              | apply pinv_condSignal
+              | apply pinv_addAwait
+              | apply pinv_removeAwait
+              | apply pinv_removeAwaitKind
+              | apply pinv_setVar
+              | apply pinv_timerAdd
+              | apply pinv_timerCancel
+              | apply pinv_timersClear
+              | apply pinv_guardWaitLeave
+              | apply pinv_bufGetLoop
+              | apply pinv_bufPutLoop
+              | apply pinv_oqGetLoop
+              | apply pinv_oqPutLoop
+              | apply pinv_pqGetLoop
+              | apply pinv_fail
+              | apply pinv_sched
+              | apply pinv_signal
+              | apply pinv_recordPool
+              | apply pinv_setPoolInUse
+              | apply pinv_guardWaitEnter
+              | apply pinv_block
+              | apply pinv_poolUpdateRecord
+              | apply pinv_poolMug
+              | apply pinv_poolLoop
+              | apply pinv_setHeldAmount
+              | apply pinv_poolRollback
+              | apply pinv_poolDropHolder
+              | apply pinv_dropResources
+              | apply pinv_cancelAwaiteds
+              | apply pinv_wakeWaiters
+              | apply pinv_finishProc
+              | apply pinv_setRecording
+              | apply pinv_removeHeld_res
+              | apply pinv_grab
+              | apply pinv_acquireStep
+              | apply pinv_pqPutLoop
+              | apply pinv_mk
+            ) <;> pinv_peel $h $hp $m
+          | (split <;> pinv_peel $h $hp $m))
+
 end CimbaModel.Sim
